@@ -2,6 +2,7 @@ package main
 
 import (
 	"bytes"
+	"regexp"
 	"context"
 	"fmt"
 	"os"
@@ -43,6 +44,18 @@ func solveOne(dir, name, query string, timeoutS, seed int, which []int) *SolveRe
 	file := filepath.Join(dir, name+".smt2")
 	if err := os.WriteFile(file, []byte(query), 0o644); err != nil {
 		return &SolveResult{Status: "error", Output: err.Error()}
+	}
+	if !strings.Contains(name, ".qf") && strings.Contains(query, "(forall") && !strings.Contains(query, "\n(check-sat)\n(get-value") || !strings.Contains(name, ".qf") && strings.Contains(query, "(forall") {
+		// stage 0: the same obligation without its quantified assumptions (weaker
+		// hypotheses: a proof found here is a proof); ground instances of the
+		// length axiom are added for the terms that occur
+		if qf := quantifierFree(query); qf != "" {
+			r := solveOne(dir, name+".qf", qf, 2, seed, which[:1])
+			if r.Status == "unsat" {
+				r.Backend += " (quantifier-free)"
+				return r
+			}
+		}
 	}
 	if len(which) > 1 {
 		// stage 1: the fastest solver alone, short timeout
@@ -194,4 +207,46 @@ func (o *Oblig) ok() bool {
 		return o.Result.Status != "unsat"
 	}
 	return o.Result.Status == "unsat"
+}
+
+var slenTerm = regexp.MustCompile(`\(slen ([^\s()]+)\)`)
+
+// quantifierFree drops every assertion that contains a quantifier and adds
+// (>= (slen x) 0) for the atomic string terms whose length is mentioned.
+func quantifierFree(q string) string {
+	lines := strings.Split(q, "\n")
+	var out []string
+	dropped := false
+	for _, l := range lines {
+		if strings.HasPrefix(l, "(assert") && (strings.Contains(l, "(forall ") || strings.Contains(l, "(exists ")) {
+			// the goal itself may be quantified: keep it (last assert before check-sat is the negated goal)
+			dropped = true
+			continue
+		}
+		if strings.HasPrefix(l, "(get-value") {
+			continue
+		}
+		out = append(out, l)
+	}
+	if !dropped {
+		return ""
+	}
+	// the negated goal and reach are the last two asserts; if the goal was quantified it was dropped: give up
+	body := strings.Join(out, "\n")
+	if !strings.Contains(body, "(assert (not ") {
+		return ""
+	}
+	seen := map[string]bool{}
+	var extra []string
+	for _, m := range slenTerm.FindAllStringSubmatch(body, -1) {
+		if !seen[m[1]] {
+			seen[m[1]] = true
+			extra = append(extra, "(assert (>= (slen "+m[1]+") 0))")
+		}
+	}
+	k := strings.LastIndex(body, "(check-sat)")
+	if k < 0 {
+		return ""
+	}
+	return body[:k] + strings.Join(extra, "\n") + "\n" + body[k:]
 }
